@@ -29,6 +29,9 @@ Streams:
               ints or substituted decimal strings, 1-3 command lines with 0-2
               tokens of every documented form each, restart in 1/3 of cases,
               counts mostly within the step's totals
+  sequence    ONE adapter instance writes 2-5 steps in a row (plus an exhaustive
+              rich/lean small scope per back-end): per-instance state must not
+              leak from one step's script into the next
   exotic      seeded: malformed tokens, zero/empty/odd values, unsafe
               characters, missing batch keys, unicode text (never inside a
               token's brackets)
@@ -279,6 +282,61 @@ class Impl:
         with open(p, newline="") as f:
             return f.read()
 
+    def _clean(self):
+        for f in os.listdir(self.ws):
+            try:
+                os.remove(os.path.join(self.ws, f))
+            except OSError:
+                shutil.rmtree(os.path.join(self.ws, f), ignore_errors=True)
+
+    def _step(self, c):
+        step = self.StudyStep()
+        step.name = c["name"]
+        step.description = c["desc"]
+        step.run["cmd"] = c["cmd"]
+        if c["restart"]:
+            step.run["restart"] = c["restart"]
+        for k, v in c["res"]:
+            step.run[k] = v
+        return step
+
+    def run_sequence(self, seq):
+        """ONE adapter instance (the batch block of the first case) writes the
+        scripts of all the steps of `seq` in order, the way ExecutionGraph does;
+        `pre` lists calls made on the shared instance before write_script
+        (get_header / get_parallelize_command), whose results are discarded."""
+        try:
+            be = seq[0]["backend"]
+            if be not in self.cls:
+                raise self.err.get(be) or ImportError(be)
+            kw = dict(seq[0]["batch"])
+            if "args" in kw:
+                kw["args"] = dict(kw["args"])
+            adapter = self.cls[be](**kw)
+        except Exception as e:
+            return [{"exc": self.classify(e), "cls": type(e).__name__, "msg": str(e)[:160]} for _ in seq]
+        out = []
+        for c in seq:
+            self._clean()
+            try:
+                step = self._step(c)
+                for call in c.get("pre") or []:
+                    try:
+                        if call == "header":
+                            adapter.get_header(step)
+                        elif call == "par":
+                            adapter.get_parallelize_command(step.run.get("procs"), step.run.get("nodes"))
+                        elif call == "cmd":
+                            adapter.get_scheduler_command(step)
+                    except Exception:
+                        pass
+                sched, path, rpath = adapter.write_script(self.ws, step)
+                out.append({"sched": bool(sched), "name": os.path.basename(path), "text": self._read(path),
+                            "restart": None if not rpath else [os.path.basename(rpath), self._read(rpath)]})
+            except Exception as e:
+                out.append({"exc": self.classify(e), "cls": type(e).__name__, "msg": str(e)[:160]})
+        return out
+
     def run(self, c):
         for f in os.listdir(self.ws):
             try:
@@ -501,6 +559,70 @@ def gen_case(rng, stream):
     return c
 
 
+def gen_sequence(rng, sid):
+    """2-5 steps for ONE adapter instance: rich steps first, lean ones later,
+    sometimes the same step twice, sometimes other adapter calls in between."""
+    be = rng.choices(["slurm", "lsf", "flux", "local"], [45, 25, 25, 5])[0]
+    b = base_batch(rng, be)
+    n = rng.randint(2, 5)
+    seq = []
+    for i in range(n):
+        if seq and rng.random() < 0.15:
+            c = json.loads(json.dumps(strip_case(rng.choice(seq)), default=str))
+        else:
+            res, maxn, maxp = gen_res(rng)
+            if i > 0 and rng.random() < 0.6:          # a lean later step
+                keep = rng.choice([["procs"], ["nodes"], ["nodes", "procs"], ["procs", "walltime"]])
+                res = [kv for kv in res if kv[0] in keep]
+                if not any(kv[0] in ("nodes", "procs") for kv in res):
+                    res.append(["procs", rng.choice([1, 2, 4])])
+                maxn = next((int(v) for k, v in res if k == "nodes"), 0)
+                maxp = next((int(v) for k, v in res if k == "procs"), 0)
+            elif i == 0 and rng.random() < 0.7:       # a rich first step
+                have = set(k for k, _ in res)
+                for k, v in (("nodes", 2), ("procs", 4), ("walltime", "00:10:00"), ("gpus", 2),
+                             ("exclusive", True), ("qos", "standby"), ("reservation", "myres"),
+                             ("cores per task", 2)):
+                    if k not in have and rng.random() < 0.7:
+                        res.append([k, v])
+                maxn = next((int(v) for k, v in res if k == "nodes"), 0)
+                maxp = next((int(v) for k, v in res if k == "procs"), 0)
+            cmd, cp = gen_cmd(rng, maxn, maxp)
+            restart, rp = ("", [])
+            if rng.random() < 0.2:
+                restart, rp = gen_cmd(rng, maxn, maxp)
+            c = {"backend": be, "batch": b, "name": rng.choice(NAMES), "desc": rng.choice(["d", "Run it", ""]),
+                 "cmd": cmd, "restart": restart, "res": res, "cmd_pieces": cp, "restart_pieces": rp}
+        c["stream"] = "sequence"
+        c["seq"] = [sid, i, n]
+        c["pre"] = rng.choice([[], [], [], ["header"], ["par"], ["cmd"], ["header", "par"]])
+        seq.append(c)
+    return seq
+
+
+def small_sequences():
+    """every scheduled back-end: a step declaring many keys, then a lean step
+    (and the other way round, and the rich one twice)"""
+    rich = [["nodes", 2], ["procs", 4], ["walltime", "00:10:00"], ["gpus", 2], ["exclusive", True],
+            ["reservation", "myres"], ["cores per task", 2]]
+    leans = [[["procs", 2]], [["nodes", 1]], [["procs", 2], ["nodes", 1]]]
+    out, sid = [], 0
+    for be in ("slurm", "lsf", "flux"):
+        b = {"type": be, "host": "h", "bank": "b", "queue": "q"}
+        for lean in leans:
+            for order in ("rl", "lr", "rrl"):
+                steps = {"r": ("rich", rich, "$(LAUNCHER)[1n,2p] a.out"), "l": ("lean", lean, "b.out")}
+                seq = []
+                for i, ch in enumerate(order):
+                    nm, res, cmd = steps[ch]
+                    seq.append({"backend": be, "batch": b, "name": nm, "desc": "d", "cmd": cmd, "restart": "",
+                                "res": [list(kv) for kv in res], "cmd_pieces": None, "restart_pieces": None,
+                                "stream": "sequence", "seq": ["small%d" % sid, i, len(order)], "pre": []})
+                out.append(seq)
+                sid += 1
+    return out
+
+
 SMALL_LAYOUTS = [
     ("none", [["T", "a.out"]]),
     ("bare", [["B"], ["T", " a.out"]]),
@@ -635,8 +757,16 @@ def shape(c, o):
 KNOWN_SIG = {}     # signature name -> (id, what) from KNOWN_FINDINGS.txt
 
 
-def evaluate(ck, cases, impl, tag, count=True):
+def run_all(impl, cases, seqs):
+    """observables: a fresh adapter per single case; one shared adapter per sequence"""
     obs = [impl.run(c) for c in cases]
+    for seq in seqs:
+        obs.extend(impl.run_sequence(seq))
+    return cases + [c for seq in seqs for c in seq], obs
+
+
+def evaluate(ck, cases, impl, tag, count=True, seqs=()):
+    cases, obs = run_all(impl, cases, list(seqs))
     bad, errs, detail = classify_cases(tag, cases, obs)
     hist = ck.cov.setdefault("input_distribution", {})
     if count:
@@ -674,6 +804,11 @@ def evaluate(ck, cases, impl, tag, count=True):
             continue
         c, o = cases[i], obs[i]
         cj = {"case": strip_case(c), "impl": o}
+        if c.get("seq"):
+            sid = c["seq"][0]
+            cj["sequence"] = [strip_case(x) for x in cases if x.get("seq") and x["seq"][0] == sid]
+            cj["note"] = ("step %d of %d written by ONE adapter instance; a fresh instance (= the stateless model) "
+                          "gives a different script" % (c["seq"][1] + 1, c["seq"][2]))
         if not d["mon"]:
             known = [KNOWN_SIG[s_] for s_ in d["sigs"] if s_ in KNOWN_SIG]
             if known:
@@ -682,6 +817,15 @@ def evaluate(ck, cases, impl, tag, count=True):
             else:
                 findings.append(("violation", "C15_ok is false on the implementation's script "
                                  "(backend %s, outcome %s)" % (c["backend"], o.get("exc") or "script"), cj))
+        if not d["corr"] and c.get("seq") and d["mon"]:
+            # the shared instance disagrees with the stateless model although the script is still right
+            # for the step: per-instance state influences generation -- a violation of "write_script is a
+            # function of (batch block, step)"
+            fresh = impl.run(c)
+            if fresh != o:
+                findings.append(("violation", "script depends on what the adapter instance generated before "
+                                 "(backend %s)" % c["backend"], dict(cj, fresh_instance=fresh)))
+                continue
         if not d["corr"]:
             # the model's observable is spelled out for the first few only
             # (one coqc call each)
@@ -748,7 +892,7 @@ def report(ck, findings, impl=None):
     for f in findings:
         if f[0] == "violation":
             cj = f[2]
-            if impl is not None and not shrunk:
+            if impl is not None and not shrunk and "sequence" not in cj:
                 shrunk = True
                 try:
                     cj = shrink(impl, cj)
@@ -773,7 +917,12 @@ def run(ck):
         n_struct, n_exo = (450, 250) if ck.tier == "quick" else (9000, 5000)
         cases += [gen_case(rng, "structured") for _ in range(n_struct)]
         cases += [gen_case(rng, "exotic") for _ in range(n_exo)]
-        obs, bad, findings = evaluate(ck, cases, impl, "C15")
+        n_seq = 70 if ck.tier == "quick" else 1500
+        seqs = small_sequences() + [gen_sequence(rng, i) for i in range(n_seq)]
+        ck.cov["sequences"] = {"count": len(seqs), "steps": sum(len(q) for q in seqs)}
+        n_single = len(cases)
+        obs, bad, findings = evaluate(ck, cases, impl, "C15", seqs=seqs)
+        cases = cases + [c for q in seqs for c in q]
         report(ck, findings, impl)
         ck.cov["traces_validated_against_impl"] = len(cases)
         ck.cov["rule"] = (
@@ -783,12 +932,17 @@ def run(ck):
             "cases (malformed tokens, odd values, unsafe characters, missing batch keys). Every case: real "
             "write_script vs model (script text, name, restart, to_be_scheduled, exception class) and C15_ok on the "
             "real script, both evaluated inside Coq. Non-trivial = scheduled step with a launcher token or >2 "
-            "resource keys; distinct = (back-end, typed resource keys, batch keys, token forms, outcome)." % ncorpus)
+            "resource keys; distinct = (back-end, typed resource keys, batch keys, token forms, outcome). "
+            "Sequence stream: ONE adapter instance per back-end writes 2-5 steps in a row (rich steps first, lean "
+            "later, repeats, get_header / get_parallelize_command / get_scheduler_command interleaved); every script "
+            "must equal the stateless model's for that step alone and satisfy C15_ok with the step's own "
+            "effective resources." % ncorpus)
 
         def search():
             r2 = random.Random(ck.seed + 7919)
             extra = [gen_case(r2, "structured") for _ in range(2500)] + [gen_case(r2, "exotic") for _ in range(1500)]
-            _, _, f2 = evaluate(ck, extra, impl, "C15-search", count=False)
+            sq = [gen_sequence(r2, "s%d" % i) for i in range(400)]
+            _, _, f2 = evaluate(ck, extra, impl, "C15-search", count=False, seqs=sq)
             for f in f2:
                 if f[0] == "violation":
                     try:
